@@ -246,13 +246,13 @@ CHECKS["C04"] = dict(
 )
 
 CHECKS["C09"] = dict(
-    text=("Lean theorems (UxVerif.C09, 103 obligations) about the model of _slice_face_indices: "
+    text=("Lean theorems (UxVerif.C09, 130 obligations) about the model of _slice_face_indices: "
           "slice_meets_spec — for EVERY source whose own edge tables meet C02's spec and EVERY valid duplicate-free face-index list the "
           "subset records exactly the request, every subset face has the corners of its source face in the same order (read through the "
           "recorded node indices), its nodes/edges are exactly those of the selected faces, and its re-indexed edge tables satisfy C02's "
           "Edges.Spec OF THE SUBSET (slice_functional); slice_eq_fresh — they equal a from-scratch edge construction on the subset; "
           "slice_history_independent / built_grid_end_to_end — for every history of requests on the source before slicing and every order of "
-          "requests afterwards nothing raises and the same tables are reported (state machine over the variables/attributes that travel); "
+          "requests afterwards nothing raises and the same tables are reported (state machine over the variables/attributes that travel); efd_transport / efd_history_independent_of_pre — the source's edge_face_distances kept where both faces were selected and renumbered EQUAL what the subset derives from its own table, proved from C03's EdgeFaceOK on both grids plus DistinctFaces (no per-case model equation left); "
           "nodes_inclusive/edges_inclusive/slice_nodes_meets_spec — node and edge selections are inclusive; data_aligned_rank — sliced data are "
           "the source's at the recorded indices for any rank; crosssec_iff + mask_order_irrelevant — a face is selected iff one of its edges "
           "has end nodes strictly on opposite sides of the parallel, for any iteration order of the parallel loop; box_iff/inLon_iff/circle_iff/"
@@ -260,12 +260,12 @@ CHECKS["C09"] = dict(
           "counterexamples for what the snapshot did before the two fix commits. Tie: differential run through Grid.isel / Grid.subset.* / "
           "Grid.cross_section.constant_latitude / get_faces_at_constant_latitude and the UxDataArray counterparts on generated meshes (25% "
           "with their own edge tables) and the MPAS sample, random materialisation histories, all index forms, antimeridian boxes, latitudes "
-          "equal to a node's; the Lean driver evaluates Slice.Spec, C03's Incidence.Spec, Touching/SameSet/CrossSpec/DataAligned on the "
+          "equal to a node's, and chains of 1-2 further selections on UNOBSERVED intermediate sub-grids judged step by step against their own source and against a fresh twin; the Lean driver evaluates Slice.Spec, C03's Incidence.Spec, Touching/SameSet/CrossSpec/DataAligned on the "
           "implementation's output and the Lean state machine must reproduce every table reported."),
     note=_TB + "Modelled, not verified: xarray isel/attrs/drop_vars and NumPy unique/fancy indexing (differential only); reference-point "
          "coordinates (C04) and tree distances (C11) are taken from the implementation and judged with a 1e-9 margin; numba prange "
          "scheduling is exercised with 1/2/7/16 threads (set_num_threads per case, NUMBA_NUM_THREADS sub-processes in thorough) but only the "
-         "order-independence of the loop body is proved; Incidence.Pre of the subset is evaluated per case, not proved from the source; "
+         "order-independence of the loop body is proved; Incidence.Pre and DistinctFaces of the subset are evaluated per case (static decidable table properties), not derived from the source's; "
          "geometric quantities of the subset are compared with the source's at the recorded indices (float tolerance 1e-9). Latitudes equal "
          "to a node's are judged EXACTLY (Lean CrossExact on the implementation's own doubles, facesAt_meets_crossExact) whenever no other "
          "node lies within 1e-9; only genuinely near (unequal) nodes fall under the margin.",
@@ -306,7 +306,7 @@ CHECKS["C07"] = dict(
           "Lean's RoundTripOK, and the whole history is compared with the Lean model's run; every reported failing history is re-confirmed "
           "in a fresh interpreter. Grids with unused nodes / an isolated first face are generated and EVERY carried connectivity table of the "
           "re-opened grid is compared entry by entry (Lean C07.tables); the reader model standardises by the start_index attribute "
-          "(standardize_zero: an explicit 0 shifts nothing; falsy_start_index_shifts is the counterexample for a reader that treats 0 as absent)."),
+          "(standardize_zero: an explicit 0 shifts nothing; falsy_start_index_shifts is the counterexample for a reader that treats 0 as absent). Cross-model agreement with C01's Model/Readers: ugrid_readers_agree / exodus_readers_agree / scrip_readers_agree (C07's reader side and C01's decoders give the same table/faces/nodes for EVERY input, no hypotheses), export_is_c01_dialect, and the three round trips re-stated through C01's decoders (ugrid_rt_via_c01, exodus_rt_perm_via_c01, exodus_single_block_via_c01, scrip_rt_via_c01)."),
     note=_TB + "Modelled, not verified: netCDF4/xarray serialisation, Dataset.rename/copy, NumPy indexing, float conversions "
          "(lon/lat<->xyz are parameters with a stated inverse hypothesis); positions are compared through the nearest original node within 1e-7. "
          "Round trips are stated for the readers named in the theorems (all-blocks Exodus reader; SCRIP reader reading trailing repeats as "
@@ -338,7 +338,7 @@ CHECKS["C05"] = dict(
 CHECKS["C13"] = dict(
     text=("Lean theorems over Model/Bounds.lean (transcription of _insert_pt_in_latlonbox, _get_latlonbox_width, both loops of "
           "_populate_face_latlon_bound, extreme_gca_latitude, _pole_point_inside_polygon): box_contains_all_inserted (ANY sequence of "
-          "inserted points incl. pole points stays inside the periodic box), lat_encloses_nodes / pole_loop_encloses_nodes (every corner "
+          "inserted points incl. pole points stays inside the periodic box), insert_minimal / insert_order_irrelevant / insert_minimal_shortest (if the inserted longitudes fit in ANY window narrower than half a turn - wrapping through 0 or not - the interval built by _insert_pt_in_latlonbox is exactly the arc from the first to the last point of the window, for every insertion order, and no covering arc is narrower; the period is a parameter), lat_encloses_nodes / pole_loop_encloses_nodes (every corner "
           "of ANY edge list is enclosed by the loops), lat_bounds_attained (each latitude bound IS an inserted corner latitude or "
           "arc extreme: tight), circle_apex_bound, extreme_param_stationary (d_a_max is the unique stationary parameter), apex_attains_bound, "
           "arc_le_endpoints/arc_ge_endpoints, extreme_encloses_arc (exact-arithmetic extreme_gca_latitude encloses EVERY point of EVERY arc "
@@ -347,9 +347,9 @@ CHECKS["C13"] = dict(
           "fixes 1bade8c0, 55464bc2), asis_pole_missed, asis_false_pole (known findings). Tie: Grid.bounds vs the Lean transcription run at Float on "
           "generated convex 3..8-gons (anywhere, poleward-bulging edges, prime/anti-meridian, corner at a pole, pole enclosed, either start), "
           "and the verdict on the implementation's box is a Lean-evaluated oracle independent of the helpers (64 samples per edge + analytic "
-          "apex, orientation determinants for the pole, largest-gap longitude hull; 1e-9 rad)."),
+          "apex, orientation determinants for the pole, largest-gap longitude hull; 1e-9 rad), plus a directed stream of faces across lon 0 / +-180 listed from every start corner in both orientations."),
     note=_TB + "Only tested (not proved): that the parity flag of _pole_point_inside_polygon agrees with 'pole strictly inside' (it does not: "
-         "2 known findings), longitude minimality when the face wraps through 0 (insert_minimal_partial covers the non-wrapping case), "
+         "2 known findings), that the corner longitudes span the boundary's longitudes (monotonicity of longitude along a pole-free arc; used by the oracle's largest-gap hull), "
          "attainment for pole faces, IEEE rounding, the ERROR_TOLERANCE clip/pole snap, np.mod/deg2rad, gca_gca_intersection/point_within_gca "
          "(idealised in the model, C14). Corners within 0.06 deg of a pole (not on it) and poles within 1e-6 of the boundary are not generated.",
     technique="Lean 4 theorems (field/real algebra, induction over edge lists) over a hand model + differential correspondence with a Lean-evaluated sampling oracle",
